@@ -270,15 +270,7 @@ O("C10.esccpy", "C10", "h_C10.c", "h_C10_esccpy",
   "esccpy(tgt,tz,src,sz): for any content and any sizes (tz <= 2 KiB, sz <= 8 KiB) writes only inside tgt[0..tz), returns a length < tz and NUL-terminates (over-long lines return 0); loop invariant inductive, loop terminates",
   ["esccpy"], dfcc=True, enforce="esccpy", loop_contracts=True, solver=["minisat", "kissat"], replay=False,
   replay_note="frame variant (is_fresh inputs)")
-O("C10.pull", "C10", "h_C10.c", "h_C10_pull",
-  "_ical_pull: for every chunk content, every stash fill level and marker state: no read outside the pushed chunk, no write outside the stash, indices stay in range, every line handed on is NUL-terminated inside the stash",
-  ["_ical_pull", "_ical_push"], dfcc=True, replace=["_ical_proc", "esccpy", "memchr"],
-  replace_status={"_ical_proc": "trusted (not discharged): the line processor consumes the stash line", "esccpy": "discharged by C10.esccpy", "memchr": "trusted libc contract"},
-  kind="bounded", bound="chunk length <= 6 bytes, <= 3 lines per pull",
-  defines=["-DSTUB_PROC", "-DBUFZ=6"], cbmc_flags=["--unwindset", "_ical_pull.0:8,_ical_pull.1:5,h_C10_pull.0:8"], unwind=20,
-  solver=["minisat"], mem_gb=28, timeout={"quick": 1500, "thorough": 3600}, tiers=["thorough"], replay=False, replay_note="harness uses nondet buffer bytes",
-  assumptions=["_ical_proc replaced by its assumed contract (consumes the stash line, result arbitrary, at most 3 lines per pull); its precondition (NUL-terminated line inside the stash) is checked at every call site",
-               "memchr by contract (CBMC has no model): result NULL or a pointer into [s, s+n) to a byte equal to c"])
+# C10.pull (harness h_C10_pull exists): no answer within 900 s at chunk length 12 and within 3600 s at chunk length 6 with the callees by contract -- not registered
 
 # ------------------------------------------------------------------ C12
 P("C12", level="proof",
